@@ -143,6 +143,17 @@ def w_plans(idx):
         root.add_namespace(None, "https://eml.ecoinformatics.org/eml-2.2.0")
         root.add_namespace("xsi", "http://www.w3.org/2001/XMLSchema-instance")
         evs.append(record_expand(root, {"items": items, "fault": fault, "namespaces": "default + prefixed, as after from_xml"}))
+        # the same plan on a tree whose inner nodes re-declare a prefix of the root with another namespace name, or declare one of
+        # their own (as an import of a document with local xmlns: declarations leaves it): a copy carries the bindings of its source
+        Node.store.clear()
+        root = build(items, fault, random.Random(i))
+        root.add_namespace("q", "urn:outer")
+        for j, x in enumerate(list(walk(root))):
+            if x is not root and j % 3 == 1:
+                x.add_namespace("q", "urn:inner%d" % (j % 2))
+            elif x is not root and j % 5 == 2:
+                x.add_namespace("r%d" % (j % 2), "urn:local")
+        evs.append(record_expand(root, {"items": items, "fault": fault, "namespaces": "inner nodes re-declare a prefix of the root / declare their own"}))
         # the same plan on a tree that was a branch of a larger document and was taken out with remove_child (its stale
         # parent pointer still names the old holder): the tree handed to expand is the tree that counts
         if i % 2 == 0:
